@@ -1359,6 +1359,14 @@ int main(int argc, char** argv)
       St s = state_of(*mp);
       for(auto& op : alphabet(s)) firsts.push_back({in, op});
    }
+   if(!args.get("first").empty())
+   {
+      // development aid: --first "init=3;ops=16.1,init=4;ops=42.4" restricts the first level to the listed (initial state, call) pairs
+      std::vector<First> keep;
+      for(auto& want : split(args.get("first"), ','))
+         for(auto& f : firsts) { Seq t; t.init = f.init; t.ops = {f.op}; if(t.str() == want) keep.push_back(f); }
+      firsts = keep;
+   }
    RunOpts o = rep.opts();
    o.perturb = {85};
    o.watchdog_s = 120;
